@@ -42,13 +42,15 @@ def correspondence(ctx):
     cases = [c for c in allc if (c["op"] == "dec" and c["feats"].startswith("cut")) or (c["op"] == "decrec" and c["feats"].endswith("cut"))]
     res, restarts = S.run_dec_child(cases)
     for c in cases:
-        c["go"] = res.get(c["id"], "MISSING")
+        c["go"] = res.get(c["id"], "not-run")
     mres = L.run_model(model, "\n".join(c["line"] for c in cases) + "\n")
     failures = []
     classes = collections.Counter()
     for c in cases:
         k = cls(c["go"])
         classes[k] += 1
+        if k == "not-run":
+            continue
         if k.startswith("err"):
             continue
         what = {"ok": "a truncated response was decoded as if complete (fabricated / partially filled data)",
@@ -59,7 +61,7 @@ def correspondence(ctx):
                              detail=c["line"][:600], input=dict(case=c["line"], go=c["go"], model=mres.get(c["id"]))))
         if len(failures) > 10:
             break
-    bad = L.diff_cases([c for c in cases if c["op"] == "dec"], mres)
+    bad = L.diff_cases([c for c in cases if c["op"] == "dec" and c["go"] != "not-run"], mres)
     for c in bad[:8]:
         failures.append(dict(layer="correspondence", what=f"decoder model and real decoder disagree on a truncated frame: go={cls(c['go'])} model={cls(c.get('model'))}",
                              detail=json.dumps(dict(case=c["line"][:600], go=c["go"][:200], model=str(c.get("model"))[:200])), input=None))
